@@ -136,6 +136,9 @@ FIXED_NODES = {
     "a2": {"seq": "TTG", "ln": 3, "sn": "HG002#1#ctg1", "so": 102, "sr": 1},
     "a3": {"seq": "GAT", "ln": 3, "sn": "HG002#1#ctg1", "so": 200, "sr": 1},
     "b1": {"seq": "AG", "ln": 2, "sn": "HG002#2#ctg1", "so": 0, "sr": 2},
+    "r5": {"seq": "CT", "ln": 2, "sn": "chr1", "so": 10, "sr": 0},
+    "r6": {"seq": "GA", "ln": 2, "sn": "chr1", "so": 12, "sr": 0},
+    "r7": {"seq": "T", "ln": 1, "sn": "chr1", "so": 14, "sr": 0},
 }
 FIXED_LINKS = [
     ["r1", "+", "r2", "+"], ["r2", "+", "r3", "+"], ["r3", "+", "r4", "+"],      # the reference path
@@ -145,6 +148,9 @@ FIXED_LINKS = [
     ["r1", "+", "r3", "+"],                                                      # a deletion
     ["r4", "+", "r3", "-"],                                                      # a hairpin
     ["r3", "+", "r2", "+"],                                                      # a tandem duplication (back link)
+    ["r4", "+", "r5", "+"], ["r5", "+", "r6", "+"], ["r6", "+", "r7", "+"],      # the reference continues
+    ["r5", "+", "r5", "+"],                                                      # a self-link (tandem repeat of one segment)
+    ["r5", "+", "r7", "+"],                                                      # a deletion of a segment as long as the repeated one
 ]
 
 
